@@ -505,6 +505,44 @@ def tree_universe(v, nleaf=None):
     return leaves
 
 
+def constant_searches(v, leaves, k):
+    """searches ending on a level the data configuration answers from constants (state, assettype,
+    type ...): the last segment is one value, an or-list of values or '*', levels above are starred"""
+    rng = v.rng
+    data = v.d["conf"].get("data") or {}
+    finders = data.get("finders", [])
+    const = {l: finders[i] for l, i in data.get("finder_by_type", []) if finders[i]["kind"] == "constants"}
+    out = []
+    if not const or not leaves:
+        return out
+    for _ in range(k):
+        label, fields = rng.choice(leaves)
+        cands = [l for l in const if l in v.tdict and [kk for kk, _ in v.tdict[l]] == [kk for kk, _ in fields[:len(v.tdict[l])]]]
+        if not cands:
+            continue
+        l = rng.choice(cands)
+        n = len(v.tdict[l])
+        segs = [val for _, val in fields[:n]]
+        values = list(const[l]["values"])
+        x = rng.random()
+        if x < 0.55 and len(values) > 1:
+            alts = rng.sample(values, rng.randint(2, min(3, len(values))))
+            segs[-1] = ",".join(alts)
+        elif x < 0.75:
+            segs[-1] = "*"
+        else:
+            segs[-1] = rng.choice(values)
+        stars = [i for i in range(1, n - 1) if rng.random() < 0.35]
+        if not stars and n > 2 and rng.random() < 0.8:
+            stars = [rng.randrange(max(1, n - 3), n - 1)]
+        for i in stars:
+            segs[i] = "*"
+        if rng.random() < 0.15:
+            segs[0] = "*"
+        out.append("/".join(segs))
+    return out
+
+
 def fam_tree(v, n, model):
     """C09-C12, C16, C18: a generated universe materialised as a tree; Finders, Getters and Sid data
     calls compared in lock-step"""
@@ -548,6 +586,8 @@ def fam_tree(v, n, model):
                 ops.append({"op": "world", "w": wid, "do": "find_all", "s": s})
             else:
                 ops.append({"op": "world", "w": wid, "do": "find_paths", "s": s, "config": rng.choice(configs)})
+        for s in constant_searches(v, leaves, 6):
+            ops.append({"op": "world", "w": wid, "do": "find_all", "s": s})
         for _ in range(8):
             label, fields = rng.choice(leaves)
             i = rng.randint(1, len(fields))
